@@ -237,7 +237,15 @@ def r14_4(ctx):
     calls = [n for n in walk_local(dl.node) if isinstance(n, ast.Call) and norm(n.func).endswith("Style.parse")]
     for c in calls:
         a = c.args[0] if c.args else None
-        ok = isinstance(a, ast.Subscript) and norm(a.value) == "SGR_STYLE_MAP"
+        def _map_value(e):
+            return (isinstance(e, ast.Subscript) and norm(e.value) == "SGR_STYLE_MAP") or (
+                isinstance(e, ast.Call) and norm(e.func) == "SGR_STYLE_MAP.get" and len(e.args) == 1 and not e.keywords)
+        ok = _map_value(a)
+        if not ok and isinstance(a, ast.Name):
+            # a temporary: every definition of the name in the function is a look-up in the map (SGR_STYLE_MAP[..] / .get(..);
+            # the None of a failed .get never reaches parse - Style.parse(None) would be a TypeError the escape analysis reports)
+            defs_ = [x.value for x in walk_local(dl.node) if isinstance(x, ast.Assign) and any(isinstance(t_, ast.Name) and t_.id == a.id for t_ in x.targets)]
+            ok = bool(defs_) and all(_map_value(d_) for d_ in defs_)
         ctx.check(ok, dl.fq, short(c), f"{am.relpath}:{c.lineno}", "decoder parses only SGR_STYLE_MAP values", f"decoder calls Style.parse on `{norm(a) if a is not None else None}`, which is not a value of the literal SGR_STYLE_MAP: arbitrary input could raise StyleSyntaxError")
     from .common import table_value
     table = table_value(am, "SGR_STYLE_MAP")
